@@ -6,7 +6,7 @@
      binary64 = FlOps 53 (-1074)  (B64Ops),   binary32 = FlOps 24 (-149)  (B32Ops).
    The format has no largest exponent: the no-overflow theorems show that on the stated domains every intermediate
    stays far below the overflow threshold, so the unbounded-exponent model coincides with IEEE-754 there.
-   The error analysis is done once, for any precision, with K = 2^eK the largest admitted |lo/r|, |hi/r| and
+   The error analysis is done once, for any precision, with K = 2^eK the largest allowed |lo/r|, |hi/r| and
    kap = 2^-prec * K <= 1/16 the resulting relative error scale (2^-13 for binary64 with K = 2^40,
    2^-4 for binary32 with K = 2^20). *)
 From Coq Require Import Reals ZArith List Lra Lia.
